@@ -11,7 +11,7 @@
    trigger hypotheses are gone. *)
 From RV Require Import Grammar.Model Grammar.Proofs Grammar.Reader Grammar.ReaderProofs Grammar.ReaderDoc.
 From RV Require Import Grammar.Resolve Grammar.ResolveProofs Grammar.TurtleStr Grammar.TurtleStrProofs.
-From RV Require Import Grammar.TurtleIri Grammar.TurtleIriProofs.
+From RV Require Import Grammar.TurtleIri Grammar.TurtleIriProofs Grammar.TurtlePname Grammar.TurtlePnameProofs.
 Local Open Scope N_scope.
 
 (* "Conversely rdflib's N-Triples output is accepted by a strict implementation of
@@ -364,6 +364,41 @@ Example C05_iriref_two_pass_differs_on_backslash :
   let l := [104;58;92;85;48;48;48;48;48;48;53;67;117;48;48;52;49;62] in      (* h: \U0000005C u0041 > *)
   iri_body 20 l = Some ([104;58;92;117;48;48;52;49], []) /\ two_pass [104;58;92;85;48;48;48;48;48;48;53;67;117;48;48;52;49] = Some [104;58;65].
 Proof. vm_compute. split; reflexivity. Qed.
+
+(* ---------------------------------------------------------------- Turtle term level: prefixed names
+   [n3_qname] is SinkParser.qname (prefix run, ':', the local-name loop with backslash escapes and the '%' check, the single
+   trailing-dot rule), [n3_pname] adds the prefix lookup of uri_ref2 (Grammar/TurtlePname.v, tied by suite "tpname");
+   [t_pname] is the Turtle grammar: PNAME_NS / PNAME_LN with PN_PREFIX, PN_LOCAL, PLX (%HH kept as written), PN_LOCAL_ESC
+   (backslash removed), leading digits and ':' in the local part.
+   _partial: proved for a prefixed name whose local part does not END in a dot and that is followed by something that
+   cannot continue a name (white space, punctuation, end of input).  NOT covered by the theorem (suite "tpname" only):
+   a local part directly followed by the statement's '.' (ex:a.) and a local part ending in a dot at all - among these
+   lies finding C05r: the legal  ex:a\.  (local part "a.") loses its escaped dot to qname's trailing-dot rule.
+   Numbers (INTEGER / DECIMAL / DOUBLE), the LANGTAG after a string and BLANK_NODE_LABEL at Turtle level are not modelled. *)
+Theorem C05_turtle_pname_forms_partial : forall l run r0 its rest,
+  span (fun c => t_pn_chars c || (c =? 46)) l = (run, r0) ->
+  match run with [] => True | c :: _ => pn_chars_base c = true /\ (last run 0 =? 46) = false end ->
+  starts_with 58 r0 = true -> starts_with 46 (tl r0) = false ->
+  t_items true (tl r0) = (its, rest) -> rest_ok rest ->
+  snd (last its (0, false)) = false -> (fst (last its (0, false)) =? 46) = false ->
+  t_pname l = Some ((run, map fst its), rest) /\ n3_qname l = Some ((run, map fst its), rest).
+Proof. exact pname_read. Qed.
+Print Assumptions C05_turtle_pname_forms_partial.
+
+(* the two scanners of the local part (grammar: PN_CHARS, ':', '.', PLX, PN_LOCAL_ESC; qname: anything outside
+   _notQNameChars, '%' + two hex digits, backslash + escapeChars) take the same characters *)
+Theorem C05_turtle_local_scan : forall n l f its rest, (length l <= n)%nat ->
+  t_items f l = (its, rest) -> (f = true -> starts_with 46 l = false) -> rest_ok rest ->
+  qloc l = Some (map fst its, rest).
+Proof. exact local_scan. Qed.
+Print Assumptions C05_turtle_local_scan.
+
+(* finding C05r: a legal prefixed name that qname misreads *)
+Example C05r_escaped_trailing_dot_refuted :
+  let l := [101;120;58;97;92;46;32;46] in                         (* ex:a\. . *)
+  t_pname l = Some (([101;120], [97;46]), [32;46]) /\ n3_qname l = Some (([101;120], [97]), [46;32;46])
+  /\ p_kf {| p_bind := []; p_text := l |} = 18.
+Proof. vm_compute. repeat split; reflexivity. Qed.
 
 (* non-vacuity: a two-row N-Quads document with every kind of term, escapes in the
    literal, a blank-node-named graph and the default graph is in scope and read back *)
